@@ -269,6 +269,8 @@ func (c01) Run(x *Exec, scn any) {
 		}
 	}
 	o.Reached = delivered > 0 && filtered > 0
+	o.ScnDistinct = true
+
 	var keys []string
 	for _, lg := range s.Sys.Logs {
 		keys = append(keys, lg.Type)
